@@ -8,8 +8,8 @@ from .common import all_demes, same_float
 from pyhms.core.problem import EvalCountingProblem, EvalCutoffProblem, PrecisionCutoffProblem, StatsGatheringProblem
 
 PROP = "C16"
-N_QUICK = 3000
-N_THOROUGH = 60000
+N_QUICK = 8000
+N_THOROUGH = 200000
 RULE = ("Generated wrapper stacks of depth 1-4 over {counting, cutoff(N), precision(opt, eps), stats} in every order "
         "(repeats allowed), both directions, shared by several levels or one per level, topped by every deme's own "
         "counting wrapper; taps between all layers feed lock-step reference models. Call sequences are those real "
@@ -226,6 +226,15 @@ class C16Monitor(Monitor):
                         if bool(o.worse_than(a, b)) != bool(fnp.worse_than(a, b)):
                             self.violate("worse-than-not-innermost", {"layer": type(o).__name__, "a": a, "b": b})
                             break
+                # NaN on one side (the innermost problem ranks a NaN fitness as worst; NaN vs NaN is a coin flip and skipped)
+                nan = float("nan")
+                for b in vals[:6]:
+                    for x, y in ((nan, b), (b, nan)):
+                        if bool(o.worse_than(x, y)) != bool(fnp.worse_than(x, y)):
+                            self.violate("worse-than-not-innermost/nan", {"layer": type(o).__name__, "a": repr(x), "b": repr(y)})
+                            break
+                if hasattr(o, "equivalent") and bool(o.equivalent(vals[0], vals[0])) != bool(fnp.equivalent(vals[0], vals[0])):
+                    self.violate("equivalent-not-innermost", {"layer": type(o).__name__})
         for d in all_demes(tree):
             p = d._problem
             w.probe("c16-deme-wrapper-checked")
